@@ -132,6 +132,11 @@ def h_file() -> bool:
     """
     post: _
     """
+    return file_body(CASE)
+
+
+def file_body(CASE):
+    # (contract-free: also called from C13's h_dumpfile)
     if CASE == "empty":
         with patched(dump, open=lambda p, *a, **k: _F([])):
             out = dump.parse_dump_file("/dump.txt", "/hdr.h", "/strings")
